@@ -181,7 +181,7 @@ fn gen_nano(c: &mut Ctx) -> u32 {
     match c.rng.below(3) {
         0 => *c.rng.pick(&[0u32, 1, 999_999_999, 500_000_000, 123_456_789, 1000]),
         1 => 0,
-        _ => c.rng.below(1_000_000_000) as u32,
+        _ => c.rng.nanos(),
     }
 }
 
